@@ -36,6 +36,7 @@ TStep(e) ==
 (* quiescent end of a stress run: nobody is inside a call, every consumer has *)
 (* followed its tokens by a Pop and sleeps on the channel: WakeInv            *)
 TStress(e) ==
+  /\ e.stuck = 0                      \* every producer / poller came back
   /\ e.left > 0 => e.sig = 1
   /\ e.got + e.left = e.accepted
   /\ UNCHANGED allwvars
